@@ -114,6 +114,20 @@ func TagProbeDocs() []GenDoc {
 		sb.WriteString(form(0))
 		sb.WriteString(`<div class="pager"><a href="/tagprobe/1">1</a> <a href="/tagprobe/3" rel="next">next</a></div></body></html>`)
 		out = append(out, GenDoc{Bytes: []byte(sb.String()), URL: "http://example.com/tagprobe/2", Origin: "tagprobe:" + t, Features: []string{"tag-probe"}, UTF8: true})
+		// ... and a page whose whole content is text (with inline markup) directly inside one such element
+		var sc strings.Builder
+		fmt.Fprintf(&sc, `<html><head><title>Sole container</title></head><body><nav><a href="/">Home</a> <a href="/about">About</a></nav>`)
+		var txt strings.Builder
+		for w := 0; w < 160; w++ {
+			if w%40 == 17 {
+				fmt.Fprintf(&txt, "<b>sc%d_%d</b> ", i, w)
+			} else {
+				fmt.Fprintf(&txt, "sc%d_%d ", i, w)
+			}
+		}
+		sc.WriteString(contextFor(t, fmt.Sprintf("<%s>%s</%s>", t, txt.String(), t)))
+		sc.WriteString("</body></html>")
+		out = append(out, GenDoc{Bytes: []byte(sc.String()), URL: "http://example.com/sole/1", Origin: "solecontainer:" + t, Features: []string{"sole-container"}, UTF8: true})
 	}
 	return out
 }
@@ -381,3 +395,54 @@ func LinkFarm(seed uint64, links int) GenDoc {
 // machine on which computing takes next to no time to one that needs seconds
 // for a page. Neighbouring values differ by a factor of four.
 var CPUCosts = []int64{250, 1_000, 4_000, 16_000, 64_000, 256_000, 1_024_000, 4_096_000}
+
+// Crossover: the head of one page with the body of another — two pages of one
+// site (or two editions of one article) share titles, metadata, URLs, class
+// names or link texts while everything else differs. Whatever the library
+// remembers under such a shared key it meets again in another context.
+func Crossover(a, b GenDoc) (GenDoc, bool) {
+	if !a.UTF8 || !b.UTF8 {
+		return a, false
+	}
+	sa, sb := string(a.Bytes), string(b.Bytes)
+	i, j := strings.Index(sa, "<body"), strings.Index(sb, "<body")
+	if i < 0 || j < 0 {
+		return a, false
+	}
+	out := b
+	out.Bytes = []byte(sa[:i] + sb[j:])
+	out.Origin = "cross(head:" + a.Origin + ",body:" + b.Origin + ")"
+	out.Features = append(append([]string{}, b.Features...), "crossover")
+	return out, true
+}
+
+// DocumentInLanguage is Document(seed) with the script of its words forced
+// (0 Latin, 1 CJK mix, 2 Hangul mix): the same page structure in another language.
+func DocumentInLanguage(seed uint64, lang int) GenDoc {
+	forceLang = lang
+	defer func() { forceLang = -1 }()
+	d := Document(seed)
+	d.Origin += fmt.Sprintf("/lang:%d", lang)
+	return d
+}
+
+// WithoutTitleElement drops the <title> elements of the page: what the page
+// is called is then only said by its metadata.
+func WithoutTitleElement(d GenDoc) GenDoc {
+	s := string(d.Bytes)
+	for {
+		i := strings.Index(s, "<title>")
+		if i < 0 {
+			break
+		}
+		j := strings.Index(s[i:], "</title>")
+		if j < 0 {
+			break
+		}
+		s = s[:i] + s[i+j+len("</title>"):]
+	}
+	out := d
+	out.Bytes = []byte(s)
+	out.Origin += "/no-title-element"
+	return out
+}
